@@ -311,6 +311,12 @@ static bool stmt_may_fall_through(ASTNode *stmt) {
             if (!stmt->as.if_stmt.else_branch) return true;
             return stmt_may_fall_through(stmt->as.if_stmt.then_branch) ||
                    stmt_may_fall_through(stmt->as.if_stmt.else_branch);
+        case AST_WHILE:
+            /* a loop ends when its condition is false; only `while true` never does */
+            return !(stmt->as.while_stmt.condition &&
+                     stmt->as.while_stmt.condition->type == AST_BOOL &&
+                     stmt->as.while_stmt.condition->as.bool_val);
+        case AST_FOR:
         case AST_LET:
         case AST_SET:
         case AST_PRINT:
